@@ -53,11 +53,14 @@ const c15Faults = "crash stale linger break rbroken gone lockfail createquota cr
 func c15Models(thorough bool) []sysCfg {
 	user := "prio0 cancel wait "
 	ms := []sysCfg{
+		// one container, one instance, every fault class, one fault: closes (or nearly) within the depth bound
 		{Name: "c15-1c-1i-f1", MaxCtr: 1, Cap: 1, Types: "A", Prios: "1", Events: user + c15Faults, Budget: 1, Depth: 30, Mon: true},
-		{Name: "c15-2c-1i-f0", MaxCtr: 2, Cap: 1, Types: "AB", Prios: "12", Events: user, Budget: 0, Depth: 30, Mon: true},
+		// two containers of different types competing for a capacity of one instance, no user action, no fault
+		{Name: "c15-2c-1i-nouser", MaxCtr: 2, Cap: 1, Types: "AB", Prios: "1", Events: "wait", Budget: 0, Depth: 40, Mon: true},
 	}
 	if thorough {
 		ms = append(ms,
+			sysCfg{Name: "c15-2c-1i-f0", MaxCtr: 2, Cap: 1, Types: "AB", Prios: "12", Events: user, Budget: 0, Depth: 30, Mon: true},
 			sysCfg{Name: "c15-1c-1i-f2", MaxCtr: 1, Cap: 1, Types: "A", Prios: "1", Events: user + c15Faults, Budget: 2, Depth: 30, Mon: true},
 			sysCfg{Name: "c15-2c-2i-f1", MaxCtr: 2, Cap: 2, Types: "A", Prios: "12", Events: user + c15Faults, Budget: 1, Depth: 30, Mon: true},
 		)
@@ -65,9 +68,19 @@ func c15Models(thorough bool) []sysCfg {
 	return ms
 }
 
-// cooperative events: everything that is not a budgeted fault (ticks, boots, process progress, user
-// actions, waiting out the quota back-off).
-func c15Cooperative(ev string) bool { return eventCost(ev) == 0 }
+// cooperative events: what the statement's premise guarantees to keep happening — time passing
+// (ticks, waiting out the quota back-off), instances finishing their boot, crunch-run processes
+// making progress (run, done).  User actions (queue, cancel, priority 0) are NOT among them: a
+// container that only reaches a final state because its user cancels it has not been brought there
+// by the dispatcher, so a component that can only be left through a user action (or a budgeted
+// fault) counts as a stall.
+func c15Cooperative(ev string) bool {
+	switch strings.SplitN(ev, ":", 2)[0] {
+	case "tick", "wait", "boot", "run", "done":
+		return true
+	}
+	return false
+}
 
 func TestVerifC15(t *testing.T) {
 	r := vrep.New("C15", "liveness")
@@ -149,7 +162,7 @@ func TestVerifC15(t *testing.T) {
 				break
 			}
 			res := evalHistory(&cfg, "c15", st.Hists[id], true)
-			r.Violation("C15:fair-stall:"+cfg.Name, fmt.Sprintf("with only cooperative events (ticks, boots, processes progressing, user actions) the system stays forever in a set of non-goal states; one of them is reached by: %s | not goal because %v | %d such components | state:\n%s",
+			r.Violation("C15:fair-stall:"+cfg.Name, fmt.Sprintf("with only cooperative events (ticks, boots, processes progressing; no user action, no fault) the system stays forever in a set of non-goal states; one of them is reached by: %s | not goal because %v | %d such components | state:\n%s",
 				strings.Join(st.Hists[id], " ; "), res.Flags, len(bad), res.Canon), doc(id, "liveness"))
 		}
 		r.AddExtra("c15_goal_states", int64(goals))
